@@ -64,6 +64,23 @@ def _classes():
         def forward(self, x):
             return self.c2(torch.tanh(self.c1(x)))
 
+    class UBSkip(nn.Module):                  # two data paths inside the block: conv2(x + relu(conv1(x))); the layer
+        def __init__(self, C, k1, k2, bias):  # conv1 is NOT on the first-operand chain of the block's output
+            super().__init__()
+            self.conv1 = nn.Conv2d(C, C, k1, padding='same', bias=bias)
+            self.conv2 = nn.Conv2d(C, C, k2, padding='same')
+
+        def forward(self, x):
+            return self.conv2(x + F.relu(self.conv1(x)))
+
+    class UBFuncAddL(nn.Module):              # residual spelled the other way round: x + relu(conv(x))
+        def __init__(self, C, k, bias):
+            super().__init__()
+            self.conv = nn.Conv2d(C, C, k, padding='same', bias=bias)
+
+        def forward(self, x):
+            return x + F.relu(self.conv(x))
+
     class UBFuncAdd(nn.Module):               # residual: relu(conv(x)) + x   (tail = operator.add)
         def __init__(self, C, k, bias):
             super().__init__()
@@ -109,6 +126,7 @@ def _classes():
             C = net["C"]
             nb = len(blocks)
             self.plan = [(b["uses"], bool(b.get("pool"))) for b in net["blocks"]]
+            self.stem2 = bool(net.get("stem2"))       # the (fixed) stem is applied a second time, at half the resolution
             bnames, fnames, tanh = resolve_names(net)
             roles = {"stem": nn.Conv2d(2, C, 3, padding='same'), "bn0": nn.BatchNorm2d(C)}
             for i in range(nb):
@@ -157,7 +175,10 @@ def _classes():
 
         def forward(self, x):
             r = self._roles
-            x = r["bn0"](r["stem"](x))
+            x0 = r["stem"](x)
+            if self.stem2:                  # a layer OUTSIDE the choice blocks invoked at two call sites of different size
+                x0 = x0 + r["stem"](F.avg_pool2d(x, 2)).mean((2, 3), keepdim=True)
+            x = r["bn0"](x0)
             for i, (uses, pool) in enumerate(self.plan):
                 blk = r[f"blk{i}"]
                 x = blk(x)
@@ -176,7 +197,7 @@ def _classes():
             x = r["head"](x)
             return r["fc"](x.mean((2, 3)))
 
-    _CLASSES.update(UBModTail=UBModTail, UBNested=UBNested, UBFuncAdd=UBFuncAdd, UBFuncRelu=UBFuncRelu,
+    _CLASSES.update(UBSkip=UBSkip, UBFuncAddL=UBFuncAddL, UBModTail=UBModTail, UBNested=UBNested, UBFuncAdd=UBFuncAdd, UBFuncRelu=UBFuncRelu,
                     UBFuncMethod=UBFuncMethod, UBReuse=UBReuse, GenNet=GenNet, Container=Container)
     return _CLASSES
 
@@ -204,9 +225,9 @@ def make_branch(kind: str, C: int, pos: int):
         return nn.Sequential(nn.Conv2d(C, C, 1, bias=bias), nn.Conv2d(C, C, k, padding='same', groups=C),
                              nn.BatchNorm2d(C))
     if kind == "ubm":
-        return (cl["UBNested"] if v % 2 else cl["UBModTail"])(C, k, 3 if k == 1 else 1, bias)
+        return [cl["UBModTail"], cl["UBNested"], cl["UBSkip"]][v % 3](C, k, 3 if k == 1 else 1, bias)
     if kind == "ubf":
-        return [cl["UBFuncAdd"], cl["UBFuncRelu"], cl["UBFuncMethod"]][v % 3](C, k, bias)
+        return [cl["UBFuncAdd"], cl["UBFuncRelu"], cl["UBFuncMethod"], cl["UBFuncAddL"]][v % 4](C, k, bias)
     if kind == "id":
         return nn.Identity()
     if kind == "ubr":
@@ -878,6 +899,8 @@ def random_net(rng, tier: str) -> Dict[str, Any]:
         blocks.append({"kinds": kinds, "uses": uses, "pool": pool, "nest": rng.random() < 0.3})
     net = {"C": rng.choice([2, 3, 4]), "hw": hw0, "gumbel": rng.random() < 0.3,
            "hard0": rng.random() < 0.3, "single": rng.random() < 0.3, "blocks": blocks}
+    if rng.random() < 0.3:
+        net["stem2"] = True
     if rng.random() < 0.5:
         nm = random_names(rng, nb)
         if nm:
